@@ -19,6 +19,7 @@ RTOL = 1e-9           # tendencies: measured 1e-14; 1e-9 leaves room for the lnp
 RTOL_STEPS = 1e-8     # implicit solve and trajectories (numerical inverse of a matrix whose row scaling follows the units)
 SQRT_4PI = float(np.sqrt(4.0 * np.pi))
 Q = 'specific_humidity'
+CLOUD = ('specific_cloud_liquid_water_content', 'specific_cloud_ice_water_content')
 
 # SI magnitudes per modal coefficient (multiplied by the drawn amplitude)
 MAG = {'vorticity': 2e-6, 'divergence': 1e-6, 'temperature_variation': 3.0, 'log_surface_pressure': 0.02}
@@ -154,8 +155,8 @@ def _case(draw, tier, targets, stepping):
     si['Rv'] = draw(st.sampled_from([461.0, 461.0, 300.0]))
     si['cpv'] = draw(st.sampled_from([1859.0, 1859.0, 1000.0]))
     si['p_mean'] = draw(st.sampled_from([1.0e5, 1.0e5, 7.0e4, 6.0e2]))
-    cfg['tracers'] = ([Q] if target == 'moist' else []) + (draw(st.sampled_from([[], [], ['a']]))
-                                                          if target in ('dry', 'moist') else [])
+    cfg['tracers'] = ([Q] if target in ('moist', 'cloud') else []) + (list(CLOUD) if target == 'cloud' else []) + (
+        draw(st.sampled_from([[], [], ['a']])) if target in ('dry', 'moist', 'cloud') else [])
     fields = list(MAG) + cfg['tracers']
   si['dt'] = draw(st.sampled_from([300.0, 600.0, 1200.0]))
   if stepping:
@@ -242,6 +243,8 @@ class _Setup:
       return sw.ShallowWaterEquations(self.coords, self.specs, self.orography, self.ref_potential)
     if self.target == 'moist':
       return pe.MoistPrimitiveEquations(self.t_ref, self.orography, self.coords, self.specs)
+    if self.target == 'cloud':   # the condensate-loading variant of the moist equations (non-zero cloud tracers)
+      return pe.MoistPrimitiveEquationsWithCloudMoisture(self.t_ref, self.orography, self.coords, self.specs)
     dry = pe.PrimitiveEquations(self.t_ref, self.orography, self.coords, self.specs)
     if self.target == 'hs' and with_forcing:
       return ti.compose_equations([dry, self.forcing()])
@@ -268,7 +271,7 @@ class _Setup:
     lsp = mf((1,), descr, 'log_surface_pressure', lmax=lmax, amp=MAG['log_surface_pressure'] * amp)
     lsp[0, 0, 0] = self.lnps_const          # ln of the non-dimensional mean surface pressure
     tracers = {t: mf((n,), descr, t, lmax=lmax, amp=MAG_TRACER * min(amp, 1.0)) for t in self.cfg.get('tracers', [])}
-    if self.target == 'moist':
+    if self.target in ('moist', 'cloud'):
       return pe.StateWithTime(vor, div, tv, lsp, sim_time=0.0, tracers=tracers)
     return pe.State(vor, div, tv, lsp, tracers=tracers)
 
@@ -482,7 +485,7 @@ def run_steps(case):
 
 SUBCHECKS = [
     Subcheck('tendencies_scale_invariance_pe', run_tendencies,
-             strategy=lambda tier: _case(tier, ('dry', 'moist'), False),
+             strategy=lambda tier: _case(tier, ('dry', 'moist', 'cloud'), False),
              examples={'quick': 48, 'thorough': 600}, shards={'quick': 3, 'thorough': 8},
              wall={'quick': 420.0, 'thorough': 1500.0},
              rule='non-trivial = scales differ by > 10x in >= 2 base dimensions; a state has non-zero vorticity, '
@@ -497,7 +500,7 @@ SUBCHECKS = [
                   'divergence and layer potential',
              doc='the same for the 1-3 layer shallow-water equations', weight=2),
     Subcheck('steps_scale_invariance_pe', run_steps,
-             strategy=lambda tier: _case(tier, ('dry', 'moist', 'hs'), True),
+             strategy=lambda tier: _case(tier, ('dry', 'moist', 'hs', 'cloud'), True),
              examples={'quick': 42, 'thorough': 400}, shards={'quick': 3, 'thorough': 8},
              wall={'quick': 420.0, 'thorough': 1500.0},
              rule='non-trivial = as above',
